@@ -164,6 +164,8 @@ def templates():
             out.append([LOG, ("set", "cn", ("mut", INT, I(0))), nxs,
                         ("whileset", "x", pat, ("call", V("nxs"), []), ("block", [mark(1)])),
                         ("tuple", [("pre", "deref", V("cn")), ("pre", "deref", V("log"))])])
+    from props import c04
+    out += c04.dead_branch_templates()
     # blocks evaluate to their last statement, loops to ()
     out.append([LOG, ("set", "b", ("block", [mark(1), I(1), ("s", "last")])), ("set", "e", ("block", [])),
                 ("set", "l", ("for", "k", ("post", "iter", ("array", [I(1)])), ("block", [I(5)]))),
